@@ -36,13 +36,29 @@ CLAIM = {
             'every diagonal length <= n, a left inverse of A + D whenever the pivots are non-zero, which holds '
             'whenever every partial sum is invertible; longer diagonals give IndexError. peig / leig / '
             'least_right_singular_vectors / get_principal_component_matrix select exactly what their names say for '
-            'every argsort / eig / svd result satisfying its contract. dB/linear/dBm and SNR/EbN0 conversions '
+            'every argsort / eig / svd result satisfying its contract. gmd (geometric mean decomposition, the '
+            'Givens sweep of Jiang/Hager/Li): for every full SVD A = U S V^H of a real or complex m x n matrix '
+            '(unitary U, V, positive non-increasing singular values, sigma_bar their geometric mean) the '
+            'statement-by-statement array model of the sweep raises nothing (every index read is in range) and '
+            'returns Q, R, P with Q R P^H = A, Q^H Q = 1, P^H P = 1, R upper triangular with constant diagonal '
+            'sigma_bar (theorems gmd_correct : GmdStatement over R and gmd_correct_complex : GmdStatementComplex '
+            'over C, all sizes; loop invariant with the product invariant d[k] * prod(unused S) = '
+            'sigma_bar^(p-k), which forces a partner on the other side of sigma_bar in every step). '
+            'dB/linear/dBm and SNR/EbN0 conversions '
             '(definitions regenerated from the source) are mutually inverse on the (positive) reals.',
     'note': 'trusted: numpy kernels (contracts checked numerically on every case, not proved), binary64 rounding '
             '(correspondence compared within 1e-9 of the absolute-value product bound), the harness and the '
-            'conversion translator plugin. PARTIAL: gmd - the full statement GmdStatement is not proved; its '
-            'executable model is tied by correspondence, each Givens step is proved '
-            '(gmd_rotation_step_partial) and the decomposition is checked numerically per case. KNOWN FINDING: the '
+            'conversion translator plugin. gmd: the theorems are about the executable array model '
+            '(Model/C20Gmd.lean, hand-written statement by statement from util.misc.gmd, NOT regenerated from the '
+            'source): it is tied to the code by the seeded differential correspondence (real and complex inputs, '
+            'tol = 0 and tol > 0, the value sigma_bar the code computes is passed through and checked to be the '
+            'geometric mean) and the decomposition is additionally checked by a first-principles oracle on every '
+            'case, including inputs whose singular values equal sigma_bar exactly in binary64 (the no-rotation '
+            'branch). The theorems assume exact real arithmetic and take sigma_bar with sigma_bar^p = prod S (the '
+            'code expression exp(mean(log S)) has that property over the reals: '
+            'gmd_sigma_bar_is_geometric_mean); tol > 0 (p < min(m, n) singular values in use) is covered by '
+            'gmd_correct_truncated / gmd_correct_truncated_complex: Q R P^H is then the rank-p truncation U S_p V^H '
+            '(oracle gmd with tol > 0, class suffix :tol>0, and correspondence). KNOWN FINDING: the '
             'principal-angle chordal distance disagrees with the projector forms for subspaces of different '
             'dimension (negative witness chordal_angles_disagree_when_dims_differ). Four defects fixed in the '
             'worktree (whitening with repeated eigenvalues; get_principal_component_matrix integer dtype and wide '
@@ -657,6 +673,9 @@ def o_chordal_invariance(case):
 
 
 def o_gmd(case):
+    """first-principles check of the decomposition; with case['tol'] > 0 only the p = #{S >= tol} largest
+    singular values are in use and Q R P^H must be the rank-p truncation U S_p V^H (theorem
+    gmd_correct_truncated)"""
     _, _, misc, _ = _impl()
     var = case.get('var')
     a = twin(realize(case['A'], dict(var or {}, dtype=None, layout=None)))
@@ -666,22 +685,29 @@ def o_gmd(case):
         u, vh = u.astype(np.complex64 if np.iscomplexobj(u) else np.float32), vh.astype(np.complex64 if np.iscomplexobj(vh) else np.float32)
     lay = (var or {}).get('layout')
     u, vh = relayout(u, lay), relayout(vh, lay)
-    q, r, p = call('gmd', misc.gmd, u, s, vh)
-    k = min(m, n)
-    sfx = vtag(var)
+    tol0 = float(case.get('tol') or 0.0)
+    if tol0 > 0.0:
+        q, r, p = call('gmd', misc.gmd, u, s, vh, tol0)
+    else:
+        q, r, p = call('gmd', misc.gmd, u, s, vh)
+    k = int(np.sum(s >= tol0))
+    sfx = (':tol>0' if tol0 > 0.0 else '') + vtag(var)
     e0 = eps_of(u, vh) / EPS
-    tol = 1e-9 * max(1.0, (s[0] / s[-1])) * e0
+    tol = 1e-9 * max(1.0, (s[0] / s[k - 1])) * e0
     if q.shape != (m, m) or r.shape != (m, n) or p.shape != (n, n):
         return 'shape' + sfx, 'shapes %s %s %s' % (q.shape, r.shape, p.shape)
-    e = np.abs(twin(q) @ r @ H(twin(p)) - a).max() / nz(s[0])
+    sp = np.zeros((m, n))
+    sp[np.arange(k), np.arange(k)] = s[:k]
+    a_p = a if k == min(m, n) else twin(u) @ sp @ twin(vh)
+    e = np.abs(twin(q) @ r @ H(twin(p)) - a_p).max() / nz(s[0])
     if not e <= tol:
-        return 'does-not-reconstruct' + sfx, 'max |Q R P^H - A| / s1 = %.3e' % e
+        return 'does-not-reconstruct' + sfx, 'max |Q R P^H - A%s| / s1 = %.3e' % ('' if k == min(m, n) else '_p', e)
     e = max(np.abs(H(twin(q)) @ twin(q) - np.eye(m)).max(), np.abs(H(twin(p)) @ twin(p) - np.eye(n)).max())
     if not e <= tol:
         return 'factors-not-orthonormal' + sfx, 'max deviation %.3e' % e
     if np.any(np.tril(r, -1) != 0):
         return 'R-not-upper-triangular' + sfx, 'non-zero entry below the diagonal'
-    gm = math.exp(float(np.mean(np.log(s))))
+    gm = math.exp(float(np.mean(np.log(s[:k]))))
     e = np.abs(np.diag(r)[:k] - gm).max() / gm
     if not e <= tol:
         return 'diagonal-not-geometric-mean' + sfx, 'diag(R)=%r geometric mean=%r' % (np.diag(r)[:k].tolist(), gm)
@@ -2668,6 +2694,14 @@ CORPUS = [
     ('gmd', lambda: {'A': enc(np.array([[6.0, 8, 0, 4], [8, 6, 7, 6], [10, 9, 7, 3], [6, 2, 9, 2]]))}),
     ('gmd', lambda: {'A': enc(3.0 * np.eye(3))}),
 ]
+# gmd, `flag` branch (no rotation): by theorem (gmd_partner_small) it is exact only when the pivot equals the
+# geometric mean; these inputs have singular values equal to sigma_bar EXACTLY in binary64 (exp(mean(log S)) == S),
+# so the branch is taken with d[k] == d[i] == sigma_bar -- a test made strict there divides 0 by 0.  The last one
+# reaches the branch after a genuine rotation (S = 4, 2, 1, sigma_bar = 2).
+GMD_EXACT_MEAN = [np.eye(2), np.eye(3), 2.0 * np.eye(2), 0.5 * np.eye(3), np.eye(3)[[1, 2, 0]],
+                  np.diag([1.0, -1.0, 1.0]), np.eye(3)[:, :2], np.eye(2, 4), 1j * np.eye(2),
+                  np.diag([4.0, 2.0, 1.0]), np.diag([1.0, 4.0, 2.0])[:, [2, 0, 1]]]
+CORPUS += [('gmd', (lambda a: (lambda: {'A': enc(a)}))(a_)) for a_ in GMD_EXACT_MEAN]
 
 
 def oracles(ctx, scale):
@@ -2675,6 +2709,10 @@ def oracles(ctx, scale):
     rng = g.rng
     for call, mk in CORPUS:
         run_oracle(ctx, call, mk(), key=('corpus', call, repr(mk())[:80]))
+    for a in GMD_EXACT_MEAN:
+        sv = np.linalg.svd(a, compute_uv=False)
+        if np.any(sv == math.exp(np.mean(np.log(sv)).item())):
+            ctx.branch('gmd:singular-value-equals-mean-exactly')
     for _ in range(40 * scale):
         a, mm, kind = gen_proj_case(g)
         run_oracle(ctx, 'Projection', {'A': enc(a), 'M': enc(mm)})
@@ -2702,6 +2740,16 @@ def oracles(ctx, scale):
     for _ in range(6 * scale):     # repeated singular values: unitary and scaled-unitary matrices
         n = rng.randint(1, 6)
         run_oracle(ctx, 'gmd', {'A': enc(g.unitary(n, rng.chance(0.5)) * float(rng.randint(1, 4)))})
+    for _ in range(10 * scale):    # tol > 0: only the p largest singular values are in use (rank-p truncation)
+        a = gen_rect(g)
+        sv = np.linalg.svd(a, compute_uv=False)
+        if sv.size < 2:
+            continue
+        j = rng.randint(1, sv.size - 1)
+        if not sv[j - 1] > 1.001 * sv[j]:
+            continue
+        run_oracle(ctx, 'gmd', {'A': enc(a), 'tol': float(np.sqrt(sv[j - 1] * sv[j]))})
+        ctx.branch('gmd:oracle-tol>0')
     for _ in range(40 * scale):
         n = rng.randint(1, 8)
         c, kind = g.hpd(n, rng.chance(0.6))
@@ -2786,13 +2834,15 @@ def check(ctx):
         '(G (A^H A) = 1; Q^H Q = 1, A = Q R, R upper triangular invertible; M = U diag(s) V^H with unitary factors; '
         'A V = V diag(D); argsort = sorting permutation) are checked numerically on every case',
         'harness/gen/c20.py (float-expression fragment of util/conversion.py -> Generated/C20Conversion.lean)',
-        'gmd: only the Givens step is proved; the sweep is an executable model tied by correspondence',
+        'gmd: the whole sweep is proved correct on the executable array model (gmd_correct, gmd_correct_complex); '
+        'the model is tied to the code by correspondence (hand-written model, not regenerated)',
     ]
     ctx.required_branches = ['complex', 'real', 'tall', 'square', 'proj:neardep', 'proj:cond', 'proj:gint',
                              'chordal:dims-equal', 'chordal:dims-differ', 'whiten:rank1', 'whiten:spectrum',
                              'uisd:full-diagonal', 'uisd:short-diagonal', 'select:peig', 'select:leig',
                              'select:error', 'lrsv:wide', 'lrsv:tall-or-square', 'gpcm:wide',
-                             'gpcm:tall-or-square', 'gmd:p=len(S)', 'gmd:p<len(S)', 'conversion']
+                             'gpcm:tall-or-square', 'gmd:p=len(S)', 'gmd:p<len(S)',
+                             'gmd:singular-value-equals-mean-exactly', 'gmd:oracle-tol>0', 'conversion']
     for side in ('corr-', 'oracle-'):
         ctx.required_branches += [side + b for b in (
             'R1:float32/complex64', 'R1:integer-dtype', 'R1:scalar-int8', 'R1:scalar-uint8', 'R1:scalar-int16',
